@@ -42,7 +42,13 @@ def observed(step):
             v = "string:" + rv[8:-1]
         elif rv.split(":")[0] in ("int", "bool", "long", "ulong", "uint"):
             v = ("int:" if rv.split(":")[0] != "bool" else "bool:") + rv.split(":", 1)[1]
-    return {"oc": oc if oc in ("val", "ee") else "ex", "out": step["out"], "v": v}
+    if oc == "bv" and step.get("v"):
+        rv = step["v"]          # a script value left eval uncaught
+        if rv.startswith("string:"):
+            v = "string:" + rv[8:-1]
+        elif rv.split(":")[0] in ("int", "bool"):
+            v = rv
+    return {"oc": oc if oc in ("val", "ee", "bv") else "ex", "out": step["out"], "v": v}
 
 
 def compare(ck, pid, text, exp, o, parser):
@@ -50,8 +56,8 @@ def compare(ck, pid, text, exp, o, parser):
         ck.violation(f"died:{pid}", f"process died ({o['died']}) [{parser}] on: {text[:300]}", {"program": text})
         return False
     got = observed(o["steps"][0])
-    want = {"oc": exp["oc"], "out": exp["out"], "v": exp["v"] if exp["oc"] == "val" else ""}
-    if want["oc"] == "val" and want["v"] == "":
+    want = {"oc": exp["oc"], "out": exp["out"], "v": exp["v"] if exp["oc"] in ("val", "bv") else ""}
+    if want["oc"] in ("val", "bv") and want["v"] == "":
         got["v"] = ""      # the reference does not predict a value (void / container): only outcome and output are compared
     if got != want:
         ck.violation(f"prog:{pid}:{parser}", f"[{parser}] engine printed {got['out']} -> {got['oc']} {got['v']}; reference interpreter: {want['out']} -> {want['oc']} {want['v']}; program: {text[:500]}",
